@@ -274,11 +274,12 @@ Definition hf_dir (c : cfg) (p : path) (ch : list node) (st2 : state) : wres :=
     let pushed :=
       if skip then Some None                                  (* EmptyGitignore *)
       else match parse_dir_gi p ch with
-           | GiErr => None                                       (* return err: nothing appended *)
+           | GiErr => if c_fatal c then None                     (* unreadable .gitignore: fatal only on request ... *)
+                      else Some None                             (* ... else logged, EmptyGitignore pushed *)
            | GiOk m => Some m
            end in
     match pushed with
-    | None => WOk st2 (Abort AbGi)
+    | None => WOk st2 (Abort AbFs)
     | Some m =>
         let st3 := set_stack st2 (m :: s_stack st2) in
         if skip then WOk st3 SkipDir else WOk st3 Continue
